@@ -902,7 +902,12 @@ class Interp:
             return
         if isinstance(st, ast.Delete):
             for t in st.targets:
-                if isinstance(t, ast.Subscript):
+                if isinstance(t, ast.Subscript) and isinstance(t.slice,
+                                                               ast.Slice):
+                    self.path.effects.append(
+                        ("del-item", self.eval(t.value, env),
+                         ("free", "[%s]" % src(t.slice)), st))
+                elif isinstance(t, ast.Subscript):
                     self.path.effects.append(
                         ("del-item", self.eval(t.value, env),
                          self.eval(t.slice, env), st))
